@@ -353,7 +353,7 @@ def main(argv=None):
                 known_printed.add(kid)
                 lines.append('KNOWN-FINDING: property=%s %s' % (prop, k['what']))
         # new violations
-        for v in r['violations']:
+        for v in r['violations'][:4]:
             path = write_replay(prop, ob, v)
             if ob.native is None:
                 harness_errors.append('%s: counterexample for claim %s but no native replay defined (%s)' % (ob.name, v['claim'], path))
